@@ -213,7 +213,7 @@ func runC09(c *Ctx) {
 		}
 	}
 	c.WriteCoqSharded("cases_C09", "From Verif Require Import Base Bytes Store RunStore.\nOpen Scope N_scope.\n", "fault_case", items, "fault_mismatches", 100)
-	c.Rep.Cases = len(cases) + c09SwapStage(c)
-	c.Rep.Rule = "every combination of backend x stored record {absent, entry, garbage, truncated, empty} x fault {none, closed DB} (memory store: closed with absent/entry); plus the validator end to end on a loaded disk CRL with the DB handle closed, the directory removed, the table files overwritten, for listed and unlisted certificates; plus a refresh whose final swap fails (both backends x strict x CDP/configured list) with one lookup queued on the entry during the swap and lookups after it; non-trivial = a fault or an undecodable record is present"
+	c.Rep.Cases = len(cases) + c09SwapStage(c) + c09DamageStage(c)
+	c.Rep.Rule = "every combination of backend x stored record {absent, entry, garbage, truncated, empty} x fault {none, closed DB} (memory store: closed with absent/entry); plus the validator end to end on a loaded disk CRL with the DB handle closed, the directory removed, the table files overwritten, for listed and unlisted certificates; plus a disk store of 300 entries sitting in a LevelDB table file (closed and reopened) with one byte damaged on disk — inside the key of 16 listed records and at 8 offsets spread over the file — and every listed certificate looked up (revoked or error, never not-revoked); plus a refresh whose final swap fails (both backends x strict x CDP/configured list) with one lookup queued on the entry during the swap and lookups after it; non-trivial = a fault or an undecodable record is present"
 	c.Rep.Extra["exhaustive"] = true
 }
